@@ -109,6 +109,19 @@ class Sz:
         if self.nret == self.maxnom:
             return self.compress()
         return 0
+    def merged_counts(self, o):
+        """(num_retained, max_nom_size) that merge(o) would compare before deciding to compress"""
+        c = self.copy(); c.stats = {}
+        if o.n == 0:
+            return c.nret, c.maxnom
+        while len(c.comps) < len(o.comps):
+            c.grow()
+        for i, oc in enumerate(o.comps):
+            x = c.comps[i]; x.state |= oc.state
+            while x.ensure():
+                pass
+            x.n += oc.n
+        return sum(x.n for x in c.comps), sum(x.nom() for x in c.comps)
     def merge(self, o):
         if o.n == 0:
             return 0
@@ -185,6 +198,29 @@ def gen_c07(rng, tier):
     # the float32 section-size schedule, every section size the constructor can produce and a few larger ones
     ks = list(range(4, 256, 2)) + [300, 1000, 4096, 65534]
     cases.append(dict(id='req_sched', ops=[[20, k] for k in ks], tags=['float32-schedule']))
+    # merges after which num_retained == max_nom_size EXACTLY (the boundary of "if (num_retained_ >= max_nom_size_) compress()");
+    # a sketch left uncompressed there never compresses again, because update() tests equality
+    for ci in range(6 if not thorough else 40):
+        k = rng.choice([4, 4, 6, 8, 12]); h = rng.randrange(2); kind = rng.choice([0, 1, 2])
+        cap = 6 * eff_k(k)
+        for attempt in range(50):
+            a = Sz(k, h); b = Sz(k, h)
+            n1 = rng.choice([rng.randrange(1, cap), rng.randrange(1, 8 * cap)])
+            for _ in range(n1): a.update()
+            n2 = None
+            for j in range(1, 4 * cap):
+                b.update()
+                r, m = a.merged_counts(b)
+                if r == m:
+                    n2 = j; break
+            if n2 is not None:
+                break
+        if n2 is None:
+            continue
+        xs = stream(rng, n1); ys = stream(rng, n2)
+        ops = [[99, rng.randrange(1 << 30)], [1, 0, kind, k, h], [1, 1, kind, k, h]] + [[2, 0, x] for x in xs] + [[2, 1, y] for y in ys]
+        ops += [[4, 0, 1, 0], [5, 0]] + [[2, 0, y + 1] for y in ys[:cap]] + query_block(rng, 0, kind, xs + ys + [y + 1 for y in ys[:cap]], thorough)
+        cases.append(dict(id='reqexact%d' % ci, ops=ops, tags=['merge', 'merge-exact-capacity']))
     for ci in range(ncases):
         ops = []; tags = set()
         kind = rng.choice([0, 0, 1, 1, 2])
@@ -611,3 +647,56 @@ def oracle_c08(case, irecs, mrecs):
 
 FAMILIES_C07 = [dict(name='req', harness='drv_req.cpp', extract='Extract_req.v', model='model_req', gen=gen_c07, oracle=oracle_c07)]
 FAMILIES_C08 = [dict(name='req', harness='drv_req.cpp', extract='Extract_req.v', model='model_req', gen=gen_c08, oracle=oracle_c08)]
+
+# what is PROVED / compared / not claimed for this family (for the property-level MANIFEST texts in C07.py / C08.py)
+MANIFEST_C07 = dict(
+    level_text=('REQ: theorems in Properties_C07_req.v about the executable model coq/ReqDefs.v for EVERY history of updates and merges (any k as the constructor adjusts it, '
+                'both accuracy modes, any merge tree/DAG, queries interleaved) and EVERY outcome of the coins: sum of 2^lg_weight * compactor sizes = n; n = number of accepted '
+                'items; exact min/max; compactors above level 0 sorted (level 0 when flagged); retained multiset within the inputs; num_retained/max_nom_size are the sums over the '
+                'compactors and num_retained < max_nom_size after every operation (uses that the binary32 section-size schedule never lowers a nominal capacity, checked by computation '
+                'for every section size 4..255); compaction range always >= 2 items and leaves >= 1 ("compaction range error" unreachable); no empty compactor in a non-empty sketch; the '
+                'iterator (with the repaired constructor) yields exactly num_retained entries with weights 2^lg_weight summing to n; sorted view ordered with total weight n and a permutation '
+                'of the retained items; get_rank (summed over compactors) = weighted count, monotone, inclusive >= exclusive, within [0, n], and equal to the rank read off the sorted '
+                'view, hence CDF = get_rank and PMF >= 0 summing to one; quantiles monotone, inclusive <= exclusive, always a retained item; empty sketch / bad rank / bad split points / NaN / '
+                'mixed-mode merges refused; with a single compactor every rank and quantile is exact. The iterator as originally coded is refuted as a theorem (Regression_req.v).'),
+    level_note=('Compared on every run (not proved): the model against req_sketch<int64_t>, <double>, <string, greater> through the public API only, coins replayed through the hook; the '
+                'model\'s integer binary32 arithmetic against the machine\'s for every section size. Not modelled: serialization, to_string, get_rank_lower/upper_bound (sanity-checked by the '
+                'oracle only), uint8/uint32 overflows (see ASSUMPTIONS).'),
+    design_ref='DESIGN.md section 5 C07')
+MANIFEST_C08 = dict(
+    level_text=('REQ: PROVED for every reachable state and query predicate: every step of update/merge other than a compaction changes the estimator exactly like the true rank; a compaction '
+                'with even state_ is a fair coin flip whose two outcomes add up to twice the estimate before; a compaction with odd state_ draws no coin; the number of coins an update or a '
+                'merge draws and all sizes/state_/section parameters it leaves behind are independent of the coin outcomes and of the item values (lock-step simulation). NOT proved: exact '
+                'unbiasedness over whole histories (needs "a level\'s coins are independent of that level\'s contents" for the reused negated coin); it is checked by exhaustive enumeration of '
+                'all coin outcomes of short histories on the implementation. The original constructor (coin_ = false) is refuted by a theorem: a reachable history whose exhaustive coin sum is 32 '
+                'instead of 34 (repaired by fixes/08_req_unset_coin.patch, after which the same history sums to 2^5 * 17).'),
+    level_note='The clause "within the published error at least as often as claimed" is statistical and not claimed.',
+    design_ref='DESIGN.md section 5 C08, Appendix B')
+
+# ---------------------------------------------------------------------------------------------------------------------
+# Mutations of the C++ confirmed caught (scratch copy of the repaired tree, VERIF_REPO; every one reported as VIOLATION by
+# `check C07` quick, seed 1; M4 and M17 also by `check C08`), 18 of 18:
+#   M1  compute_compaction_range: the "make compacted region even" increment dropped
+#   M2  compact: the odd-state coin is not negated (coin_ = coin_)
+#   M3  promote_evens_or_odds: parity swapped (if (!odds) ++i)
+#   M4  compact: the fresh coin replaced by the constant false (always evens; draws no coin)          [C08: req_rank_biased]
+#   M5  req_compactor::merge: state_ |= other.state_ dropped
+#   M6  update: max comparison reversed (comparator_(item, *max_item_))
+#   M7  ensure_enough_sections: num_sections_ <<= 1 dropped
+#   M8  compress: level 0 not sorted before its compaction
+#   M9  req_sketch::merge: n_ += other.n_ dropped
+#   M10 update: compress one item late (num_retained_ > max_nom_size_)
+#   M11 compute_weight: upper_bound / lower_bound swapped
+#   M12 get_sorted_view: weight one level off for compactors above level 1
+#   M13 nearest_even: floor instead of round
+#   M14 merge: the min_item_ update of a non-empty target dropped
+#   M15 compute_compaction_range: one section less kept
+#   M16 compact: secs_to_compact without the "+ 1"
+#   M17 the constructor coin fix reverted (coin_(false))                                                  [C08: req_rank_biased]
+#   M18 req_sketch::merge: compress only when num_retained_ > max_nom_size_ (first survived; caught since the generator
+#       builds merges that land exactly on num_retained == max_nom_size: cases reqexact*)
+# Harmless rewrites confirmed NOT reported (exit 0): H1 append() growth factor 2*capacity+7; H2 compress() recomputes
+#   max_nom_size_ with update_max_nom_size() instead of adding the delta; H3 std::stable_sort instead of std::sort;
+#   H4 update(): ++n_ before ++num_retained_ and the comparison written the other way round; H5 ensure_space() grows more.
+# On the UNREPAIRED /repo: check C07 reports req_empty_iterator (and every case mismatches on the constructor coin),
+#   check C08 reports req_rank_biased on the merge-into-a-fresh-compactor histories (tags negated-unset-coin).
